@@ -20,15 +20,15 @@
 #define VOPT_MK_STR(p, n) do { (p) = malloc((n) + 1); ((char *) (p))[(n)] = 0; } while (0)
 #define VOPT_STR_OK(p, n) ((n) <= VCAP && __CPROVER_r_ok((p), (n) + 1) && ((const char *) (p))[(n)] == 0)
 
-/* the client installed a help handler that returns (vopt_help); the bad-option counter has
- * room (it is 8 bits wide; the unit `check_bad_wrap` covers bad_opts == 255). */
+/* the client installed a help handler that returns (vopt_help) */
 #define OPT_HELP_INV  (spifopt_settings.help_handler == (spifopt_helphandler_t) vopt_help)
-#define OPT_BAD_ROOM  (spifopt_settings.bad_opts < 255)
 
-/* what one CHECK_BAD() does: exactly one more bad option; help handler iff limit exceeded */
+/* what one CHECK_BAD() does: one more bad option (the 8-bit counter saturates at 255); the help
+ * handler runs iff the new count exceeds the limit */
+#define OPT_BAD_NEXT(old_bad)  ((long) (old_bad) < 255 ? (long) (old_bad) + 1 : 255L)
 #define OPT_ONE_BAD(old_bad, old_help) \
-    ((long) spifopt_settings.bad_opts == (long) (old_bad) + 1 && \
-     vg_help_calls == (old_help) + (((long) (old_bad) + 1) > (long) spifopt_settings.allow_bad ? 1UL : 0UL))
+    ((long) spifopt_settings.bad_opts == OPT_BAD_NEXT(old_bad) && \
+     vg_help_calls == (old_help) + (OPT_BAD_NEXT(old_bad) > (long) spifopt_settings.allow_bad ? 1UL : 0UL))
 #define OPT_NO_BAD(old_bad, old_help) \
     (spifopt_settings.bad_opts == (old_bad) && vg_help_calls == (old_help))
 
@@ -40,10 +40,11 @@
 /* ---- contracts shared between the unit that proves them and units that use them at call sites ---- */
 
 /* find_short_option(char opt): FIRST table index whose short form is opt (a short form is a non-NUL
- * letter: entries without one carry 0 and must never be found), else -1 and exactly one bad option.
+ * letter: entries without one carry 0 and are never found, not even by the NUL "letter"), else -1
+ * and exactly one bad option.
  * "first"/"none" through the ghost index vg_k.  EXTRA: behaviour-specific precondition. */
 #define CONTRACT_find_short_option(EXTRA) \
-__CPROVER_requires(OPTTAB_INV && OPT_HELP_INV && OPT_BAD_ROOM) \
+__CPROVER_requires(OPTTAB_INV && OPT_HELP_INV) \
 __CPROVER_requires(EXTRA) \
 __CPROVER_assigns(spifopt_settings.bad_opts, vg_help_calls) \
 __CPROVER_ensures(__CPROVER_return_value == -1 || \
@@ -61,7 +62,7 @@ __CPROVER_ensures(__CPROVER_return_value != -1 || \
  * of opt and opt continues with '=' or ends there.  Result: FIRST matching index, else -1 and one bad option. */
 #define LONG_MATCH_K(opt)  (vg_cmp == 0 && vg_n2 <= vg_n1 && ((opt)[vg_n2] == '=' || (opt)[vg_n2] == 0))
 #define CONTRACT_find_long_option \
-__CPROVER_requires(OPTTAB_INV && OPT_HELP_INV && OPT_BAD_ROOM) \
+__CPROVER_requires(OPTTAB_INV && OPT_HELP_INV) \
 __CPROVER_requires(VOPT_STR_OK(opt, vg_n1) && vg_p1 == (const char *) opt) \
 __CPROVER_requires(!((long) vg_k < OPT_N) || (VOPT_STR_OK(vg_p2, vg_n2) && vg_p2 == (const char *) OPT_TAB[vg_k].long_opt)) \
 __CPROVER_requires((long) vg_k < OPT_N || vg_p2 == NULL) \
@@ -75,31 +76,32 @@ __CPROVER_ensures(__CPROVER_return_value != -1 || \
                   ((!((long) vg_k < OPT_N) || !LONG_MATCH_K(opt)) && \
                    OPT_ONE_BAD(__CPROVER_old(spifopt_settings.bad_opts), __CPROVER_old(vg_help_calls))))
 
-/* handle_arglist, hasequal == 0 ("swallow the rest of the line").  argv: argc+1 slots.  The slot with
- * ghost index vg_k holds vg_old_ptr; when i <= vg_k < argc it is a real word (registered string 1).
- * The strdup call number vg_k-i+1 is recorded (vg_dup_src/res); strdup = arena bump allocator. */
+/* handle_arglist, hasequal == 0 ("swallow the rest of the line"): the list is the value followed by
+ * argv[i+1..argc-1]; argv itself is not touched (spifopt_parse removes the words).  argv: argc+1 slots.
+ * The slot with ghost index vg_k holds vg_old_ptr; when i <= vg_k < argc it is a real word (registered
+ * string 1).  The strdup call number vg_k-i+1 is recorded (vg_dup_src/res); strdup = arena bump
+ * allocator.  The value is the next word, val_ptr == argv[i] (the -eVALUE spelling, where the value
+ * sits inside the option word, is covered by the B unit parse.args_attached). */
 #define ARGS_TARGET(n) (*((spif_charptr_t **) OPT_TAB[n].value))
-#define ARGS_REMOVE    ((spifopt_settings.flags & SPIFOPT_SETTING_REMOVE_ARGS) != 0)
 #define K_IN_REST      ((long) i <= (long) vg_k && (long) vg_k < (long) argc)
 #define CONTRACT_handle_arglist_rest(EXTRA) \
 __CPROVER_requires(OPTTAB_INV && 0 <= n && n < OPT_N && __CPROVER_rw_ok((spif_charptr_t **) OPT_TAB[n].value, sizeof(spif_charptr_t *))) \
 __CPROVER_requires(hasequal == 0) \
-/* the value is the next word (the -eVALUE spelling is finding C08-arglist-attached, unit parse.args_attached) */ \
+__CPROVER_requires(1 <= i && i <= argc && argc <= 0x7ffffff0 && __CPROVER_r_ok(argv, ((size_t) argc + 1) * sizeof(char *))) \
 __CPROVER_requires(i == argc || val_ptr == (spif_charptr_t) argv[i]) \
-__CPROVER_requires(1 <= i && i <= argc && argc <= 0x7ffffff0 && __CPROVER_rw_ok(argv, ((size_t) argc + 1) * sizeof(char *))) \
 __CPROVER_requires(EXTRA) \
 __CPROVER_requires(vg_k <= (size_t) argc && argv[vg_k] == (char *) vg_old_ptr) \
 __CPROVER_requires(__CPROVER_rw_ok(vg_arena, vg_arena_size) && vg_arena_off == 0) \
 __CPROVER_requires(!K_IN_REST || (VOPT_STR_OK(vg_p1, vg_n1) && vg_p1 == vg_old_ptr)) \
 __CPROVER_requires(K_IN_REST || vg_p1 == NULL) \
 __CPROVER_requires(vg_dup_calls == 0 && vg_dup_want == (K_IN_REST ? (unsigned long) vg_k - (unsigned long) i + 1 : 0UL)) \
-__CPROVER_assigns(ARGS_TARGET(n), __CPROVER_object_whole(argv), vg_dup_calls, vg_dup_src, vg_dup_res, vg_arena_off, __CPROVER_object_whole(vg_arena)) \
+/* argv is not in the frame: it is left alone */ \
+__CPROVER_assigns(ARGS_TARGET(n), vg_dup_calls, vg_dup_src, vg_dup_res, vg_arena_off, __CPROVER_object_whole(vg_arena)) \
 /* result: fresh array of argc-i+1 slots, NULL-terminated */ \
 __CPROVER_ensures(__CPROVER_is_fresh(ARGS_TARGET(n), ((size_t) (argc - i) + 1) * sizeof(spif_charptr_t))) \
 __CPROVER_ensures(ARGS_TARGET(n)[argc - i] == NULL) \
 /* entry vg_k-i is the duplicate of word vg_k (so: argc-i non-NULL entries, in order) */ \
 __CPROVER_ensures(!K_IN_REST || (ARGS_TARGET(n)[(long) vg_k - i] == (spif_charptr_t) vg_dup_res && vg_dup_res != NULL && \
                                  vg_dup_src == vg_old_ptr)) \
-/* argv: swallowed words cleared iff REMOVE_ARGS; everything else untouched */ \
-__CPROVER_ensures(argv[vg_k] == ((K_IN_REST && ARGS_REMOVE) ? (char *) NULL : (char *) vg_old_ptr))
+__CPROVER_ensures(argv[vg_k] == (char *) vg_old_ptr)
 #endif
